@@ -28,6 +28,11 @@ type World struct {
 	// transitive write sets (heap keys); "*" means everything
 	ModSet map[*ssa.Function]map[string]bool
 	srcCache map[string][]byte
+	// package-level variables stored only by package initialisers
+	WritesExisting map[*ssa.Function]map[string]bool
+	InitOnly map[*ssa.Global]bool
+	// init-only globals of interface type initialised with a freshly constructed non-nil value
+	NonNilGlobal map[*ssa.Global]bool
 }
 
 func shortPkg(path string) string {
@@ -143,6 +148,8 @@ func loadWorld(repo string) (*World, error) {
 	}
 	w.computeAddrTaken()
 	w.computeModSets()
+	w.computeGlobals()
+	w.computeWritesExisting()
 	return w, nil
 }
 
@@ -223,6 +230,9 @@ func qualName(t types.Type) string {
 	}
 	if p, ok := t.(*types.Pointer); ok {
 		return "*" + qualName(p.Elem())
+	}
+	if st, ok := t.(*types.Struct); ok {
+		return fmt.Sprintf("anon%d_%x", st.NumFields(), hashStr(st.String()))
 	}
 	return typeKey(t)
 }
@@ -374,6 +384,12 @@ func (w *World) externalWrites(f *ssa.Function) map[string]bool {
 		pk = f.Pkg.Pkg.Path()
 	} else if f.Object() != nil && f.Object().Pkg() != nil {
 		pk = f.Object().Pkg().Path()
+	}
+	if strings.HasPrefix(n, "(*strings.Builder).") {
+		return map[string]bool{"$sb": true}
+	}
+	if strings.HasPrefix(n, "(*math/big.Int).") {
+		return map[string]bool{"$big": true}
 	}
 	if pureExternalPkgs[pk] {
 		return map[string]bool{}
@@ -647,7 +663,7 @@ func (w *World) keySort(e *Enc, k string) (string, bool) {
 			return "Real", true
 		}
 		return "Int", true
-	case k == "$big", k == "$lock", k == "$consumed":
+	case k == "$big", k == "$lock", k == "$consumed", k == "$sb":
 		return "Int", true
 	}
 	return "", false
@@ -676,4 +692,74 @@ func (w *World) lookupType(name string) types.Type {
 		}
 	}
 	return nil
+}
+
+func (w *World) computeGlobals() {
+	w.InitOnly = map[*ssa.Global]bool{}
+	w.NonNilGlobal = map[*ssa.Global]bool{}
+	mutated := map[*ssa.Global]bool{}
+	addrUsed := map[*ssa.Global]bool{}
+	initStore := map[*ssa.Global][]ssa.Value{}
+	for f := range ssautil.AllFunctions(w.Prog) {
+		if f.Blocks == nil || f.Pkg == nil || !isLibPkg(f.Pkg.Pkg.Path()) {
+			continue
+		}
+		isInit := f.Name() == "init" || strings.HasPrefix(f.Name(), "init#")
+		for _, b := range f.Blocks {
+			for _, ins := range b.Instrs {
+				for _, op := range ins.Operands(nil) {
+					g, ok := (*op).(*ssa.Global)
+					if !ok {
+						continue
+					}
+					switch x := ins.(type) {
+					case *ssa.Store:
+						if x.Addr == g {
+							if isInit {
+								initStore[g] = append(initStore[g], x.Val)
+							} else {
+								mutated[g] = true
+							}
+							continue
+						}
+						addrUsed[g] = true
+					case *ssa.UnOp:
+						if x.Op != token.MUL {
+							addrUsed[g] = true
+						}
+					case *ssa.DebugRef:
+					default:
+						addrUsed[g] = true
+					}
+				}
+			}
+		}
+	}
+	for _, p := range w.Pkgs {
+		for _, m := range p.Members {
+			g, ok := m.(*ssa.Global)
+			if !ok || mutated[g] || addrUsed[g] {
+				continue
+			}
+			w.InitOnly[g] = true
+			if _, isIface := under(g.Type().(*types.Pointer).Elem()).(*types.Interface); !isIface {
+				continue
+			}
+			vals := initStore[g]
+			if len(vals) != 1 {
+				continue
+			}
+			switch v := vals[0].(type) {
+			case *ssa.Call:
+				if c := v.Call.StaticCallee(); c != nil {
+					switch c.String() {
+					case "errors.New", "fmt.Errorf", "github.com/pkg/errors.New", "github.com/pkg/errors.Errorf":
+						w.NonNilGlobal[g] = true
+					}
+				}
+			case *ssa.MakeInterface:
+				w.NonNilGlobal[g] = true
+			}
+		}
+	}
 }
